@@ -188,6 +188,38 @@ FilteredRunOK(c, run) ==
   /\ NoneMutated(run)
   /\ ShownOK(c.file, c.skip, c.inst, run.shown)
 
+(* Stateful filters (the verdict depends on earlier calls: alternating, first N, first occurrence).  With several   *)
+(* decoders the order in which the filter functions are called is schedule dependent, so the verdicts cannot be  *)
+(* computed from the case; the recorder logs every call <<type, id, verdict>> in the order made and the property *)
+(* is judged on the verdicts the filter actually returned: "the elements ... for which the filter returned true". *)
+(* The statement presupposes one verdict per element.  If an implementation asks several times and the answers   *)
+(* differ, the FIRST answer - the one given when the decoder asked, before the element could be delivered - is   *)
+(* the filter's verdict: an element the filter returned true for must be delivered (asking again and dropping it  *)
+(* on a later false breaks the property), and one it returned false for must not be (its memory is reused).       *)
+FirstVerdict(calls, t, id) ==
+  LET S == {j \in 1 .. Len(calls) : calls[j][1] = t /\ calls[j][2] = id} IN
+  IF S = {} THEN FALSE ELSE calls[CHOOSE j \in S : \A k \in S : j <= k][3]
+DeliveredByVerdicts(file, skip, inst, calls) ==
+  LET all == DecodeFile(file) IN
+  SelectIdx(all, LAMBDA i : /\ ~skip[TypeIdx(all[i].t)]
+                            /\ (inst[TypeIdx(all[i].t)] => FirstVerdict(calls, all[i].t, all[i].id)))
+IsStateful(c) == "fkind" \in DOMAIN c /\ c.fkind # "pos"
+StatefulRunOK(c, run) ==
+  /\ run.err = ""
+  /\ run.elems = DeliveredByVerdicts(c.file, c.skip, c.inst, run.calls)
+  /\ NoneMutated(run)
+  /\ ShownOK(c.file, c.skip, c.inst, run.shown)
+StatefulRunWhy(c, run) ==
+  IF run.err # "" THEN <<"error", run.procs, run.err, "reader", run.reader>>
+  ELSE IF ~NoneMutated(run) THEN <<"returned object modified afterwards", "procs", run.procs, run.mutated>>
+  ELSE LET exp == DeliveredByVerdicts(c.file, c.skip, c.inst, run.calls) IN
+       IF run.elems # exp
+       THEN LET i == FirstDiff(exp, run.elems) IN
+            <<"filter kind", c.fkind, "element", i, "procs", run.procs,
+              "expected (first verdict true)", IF i <= Len(exp) THEN <<exp[i]>> ELSE << >>,
+              "got", IF i <= Len(run.elems) THEN <<run.elems[i]>> ELSE << >>, "calls", Len(run.calls)>>
+       ELSE <<"filter was not shown exactly the elements of the non-skipped types", "procs", run.procs>>
+
 FilteredRunWhy(c, run) ==
   IF run.err # "" THEN <<"error", run.procs, run.err, "reader", run.reader>>
   ELSE IF ~NoneMutated(run) THEN <<"returned object modified afterwards", "procs", run.procs, run.mutated>>
